@@ -127,14 +127,32 @@ def _table(au, which):
     return au.GEODETIC_TO_AUTHALIC if which == "forward" else au.AUTHALIC_TO_GEODETIC
 
 
-def _g(au, shim, which, s, co, c, tag=""):
-    """run the real forward()/inverse() on a symbolic angle; returns g = result - phi."""
+def _link(c, phi, s, co):
+    """contracts tying the symbolic angle to its sine and cosine on the property's domain [-pi/2, pi/2] (needed only when
+    the code branches on the angle itself, e.g. a pole or small-angle shortcut): sign(s) = sign(phi), (2/pi)|phi| <= |s| <= |phi|
+    (Jordan), 1 - (2/pi)|phi| <= cos(phi) <= pi/2 - |phi|."""
+    a = abs(phi)
+    sa = abs(s)
+    hp = sf.SymReal(sf.rval(Fraction(884279719003555, 562949953421312)))     # float pi/2, exactly
+    c.assume(sx.And(a <= hp, co >= 0, s * phi >= 0, sa <= a, sa * hp >= a,
+                    co <= hp - a + 1e-16, co * hp >= hp - a - 1e-16))
+
+
+def _g(au, shim, which, s, co, c, tag="", link=True):
+    """run the real forward()/inverse() on a symbolic angle; returns g = result - phi.  The angle is tied to its sine and
+    cosine (contracts of _link) only if the code under test branched on the angle itself - the pinned code does not, and the
+    extra inequalities make the nlsat queries much slower (> 20 min instead of 18 s)."""
     phi = sf.real_input(c, "phi" + tag)
     shim.register(phi, s, co)
+    before = c.path_decisions
     proj = au.AuthalicProjection()
     res = proj.forward(phi) if which == "forward" else proj.inverse(phi)
+    if link and c.path_decisions > before:
+        _link(c, phi, s, co)
+    if isinstance(res, (int, float)):
+        res = sf.SymReal(sf.rval(res))           # a branch of the code returned a constant (e.g. a pole snap)
     if not isinstance(res, sf.SymReal):
-        raise sx.Unsupported("result is not a polynomial in (phi, sin phi, cos phi)")
+        raise sx.Unsupported("result is not real-valued arithmetic on (phi, sin phi, cos phi)")
     return res - phi
 
 
@@ -161,8 +179,8 @@ def _ref_series(which, s, co):
 
 def h_odd_fixed(c, which):
     au, shim, s, co = _setup(c)
-    g1 = _g(au, shim, which, s, co, c, "1")
-    g2 = _g(au, shim, which, -s, co, c, "2")       # the angle -phi
+    g1 = _g(au, shim, which, s, co, c, "1", link=False)
+    g2 = _g(au, shim, which, -s, co, c, "2", link=False)       # the angle -phi
     cand = {"candidate": True}
     c.prove(g1 + g2 == 0, "odd:g(-s,c)==-g(s,c)", info=cand)
     c.prove(sx.Implies(sx.And(s == 0, co == 1), g1 == 0), "fixes-0", info=cand)
@@ -278,6 +296,8 @@ def xi(p):
     if p >= math.pi/2: return math.pi/2
     return math.asin(max(-1.0, min(1.0, q(p)/q(math.pi/2))))
 pts = [phi0] + [math.radians(d/4.0) for d in range(-360, 361)] + [phi0 * 10.0**-k for k in range(1, 12)]
+pts += [sg * 10.0**-k for k in range(2, 16) for sg in (1, -1)] + [sg * (math.pi/2 - 10.0**-k) for k in range(2, 16) for sg in (1, -1)]
+pts += [sg * m * 10.0**-k for k in range(2, 14) for sg in (1, -1) for m in (2.5, 5.0)] + [sg * (math.pi/2 - m * 10.0**-k) for k in range(2, 14) for sg in (1, -1) for m in (2.5, 5.0)]
 for t in pts:
     if abs(t) > math.pi/2: continue
     if f(-t) != -f(t): bad(which + "-not-odd")
